@@ -1016,6 +1016,10 @@ func c10(c *an.Ctx) {
 		ruleBatchClauseTable(c, o)
 	})
 
+	c.Check("R-SIBLING", "row matcher: filters are filed and rows looked up under the same key derivation, and every group is probed", 2, func(o *an.O) {
+		ruleMatcherKeyAgreement(c, o)
+	})
+
 	c.Check("R-SIBLING", "NULL filter values are rendered with the IS form by both the unbatched and the batched renderer (an '= ?' / 'IN (?)' placeholder is only written for a non-nil value)", 4, func(o *an.O) {
 		for _, nm := range []string{"makeBatchQuery", "(*SimpleWhere).ToSQL"} {
 			fn := c.NeedFunc(sg, nm)
